@@ -9,7 +9,8 @@ Exact ties: the step each of split / join / lift / wrap records equals the step 
 can_join, join_point, lift_target, find_wrapping, insert_point, drop_point, can_change_type) equals the model's
 (lean/PM/Structure.lean, Structure2.lean), `None` and "raises" included, also at off-guard positions.
 Guard ties (relational, all schemas incl. random and aimed ones): the guards of the theorems "an approved edit applies"
-(Props/C12.lean `canSplit_split_applies`, …; model functions `splitGuard`, … of lean/PM/Structure.lean) are evaluated by the
+(Props/C12.lean `canSplit_split_applies`, `canJoin_join_applies`, `liftTarget_lift_applies`; model functions `splitGuard`, `joinGuard`,
+`liftGuard` / `liftFlatGuard` of lean/PM/Structure.lean, Structure2.lean, StructEdit.lean) are evaluated by the
 driver at every approved edit: approved ∧ guard ⇒ the real edit succeeded (a mismatch otherwise).  Aimed schemas
 (`AIMED`, outside the family: approval without the guard is known not to be enough there) make the guards bite.
 Search: approve ⇒ perform ⇒ `check()` ∧ leaf/text sequence equal; helpers never die with an internal
